@@ -3,27 +3,30 @@
 // newPeerSet and a buffered result channel, which is drained after every operation.
 //
 // Time. updateTime reads time.Now(); the harness makes its two uses deterministic:
-//   * before each operation latestTimeUpdate is set to now-(k+0.5)s, so the first updateTime of
+//   - before each operation latestTimeUpdate is set to now-(k+0.5)s, so the first updateTime of
 //     the operation sees exactly k elapsed seconds (k is part of the input);
-//   * lastConnected of every node is pinned before each operation to one of two marker instants:
+//   - lastConnected of every node is pinned before each operation to one of two marker instants:
 //     c30Old (second-of-minute 0: `lastConnected+1h .Second() >= now.Second()` is false, the
 //     peer is forgotten when its reputation decays to 0) or c30Fresh (second 59: never
 //     forgotten); operations with k>0 start only while now.Second() is in [1,58]. The `ag`
 //     operation marks a peer old; the code itself only ever stores time.Now() (= fresh).
 //
 // input (fields separated by one space, numbers hex):
-//   ps <maxIn> <maxOut> <reservedOnly 0|1> <nPeers> <op> <op> ...
-//   op := <k>:<code>:<arg>:<peers>   peers = letters a.. (possibly repeated) or - for none
-//     ar addReservedPeers   rr removeReservedPeers   sr setReservedPeer   ap addPeer
-//     rm removePeer   in incoming   al allocSlots (ticker)   ag mark peer old
-//     rp reportPeer, arg = reputation change (signed hex)
-//     dc disconnect, arg = 1 for RefusedDrop else 0
+//
+//	ps <maxIn> <maxOut> <reservedOnly 0|1> <nPeers> <op> <op> ...
+//	op := <k>:<code>:<arg>:<peers>   peers = letters a.. (possibly repeated) or - for none
+//	  ar addReservedPeers   rr removeReservedPeers   sr setReservedPeer   ap addPeer
+//	  rm removePeer   in incoming   al allocSlots (ticker)   ag mark peer old
+//	  rp reportPeer, arg = reputation change (signed hex)
+//	  dc disconnect, arg = 1 for RefusedDrop else 0
+//
 // observed: one token per executed operation (execution stops after a hang):
-//   <err>|<msgs>|<numIn>,<numOut>|<peer>,<peer>,...      or   hang   or   panic
-//   err  := ok | e:<class>      msgs := <C|D|A|R><letter>... or -
-//   peer := -  (not in nodes)  |  <state 0..3><o|f><r|-><n|->:<reputation signed hex>
-//           state 0 notMember 1 ingoing 2 outgoing 3 notConnected; o = old lastConnected;
-//           r = in reservedNode; n = in noSlotNodes   (absent peers still show "-" + r/n flags)
+//
+//	<err>|<msgs>|<numIn>,<numOut>|<peer>,<peer>,...      or   hang   or   panic
+//	err  := ok | e:<class>      msgs := <C|D|A|R><letter>... or -
+//	peer := -  (not in nodes)  |  <state 0..3><o|f><r|-><n|->:<reputation signed hex>
+//	        state 0 notMember 1 ingoing 2 outgoing 3 notConnected; o = old lastConnected;
+//	        r = in reservedNode; n = in noSlotNodes   (absent peers still show "-" + r/n flags)
 package peerset
 
 import (
@@ -135,26 +138,28 @@ func c30Exec(ps *PeerSet, code, arg string, peers []peer.ID) error {
 	panic("bad op " + code)
 }
 
-func c30Run(in string) string {
+// c30RunOnce executes one sequence; stalled reports that some operation took so long in wall-clock
+// time (machine load) that updateTime may have seen an extra elapsed second.
+func c30RunOnce(in string) (result string, stalled, hung bool) {
 	f := strings.Split(in, " ")
 	if len(f) < 5 || f[0] != "ps" {
-		return "err:badinput"
+		return "err:badinput", false, false
 	}
 	if c30Hangs >= c30HangBudget {
-		return "hang-budget"
+		return "hang-budget", false, false
 	}
 	n := int(vu.UnX(f[4]))
 	cfg := NewConfigSet(uint32(vu.UnX(f[1])), uint32(vu.UnX(f[2])), f[3] == "1", time.Hour)
 	ps, err := newPeerSet(cfg)
 	if err != nil {
-		return "err:new"
+		return "err:new", false, false
 	}
 	ps.resultMsgCh = make(chan Message, 4096)
 	out := make([]string, 0, len(f)-5)
 	for _, tok := range f[5:] {
 		a := strings.Split(tok, ":")
 		if len(a) != 4 {
-			return "err:badop"
+			return "err:badop", false, false
 		}
 		k := int64(vu.UnX(a[0]))
 		// pin lastConnected to the markers
@@ -194,13 +199,15 @@ func c30Run(in string) string {
 		select {
 		case r = <-ch:
 		case <-time.After(1500 * time.Millisecond):
-			c30Hangs++
 			out = append(out, "hang")
-			return strings.Join(out, " ")
+			return strings.Join(out, " "), false, true
 		}
 		if r.panicked {
 			out = append(out, "panic")
-			return strings.Join(out, " ")
+			return strings.Join(out, " "), false, false
+		}
+		if time.Since(now) > 250*time.Millisecond {
+			stalled = true
 		}
 		var ms strings.Builder
 	drain:
@@ -220,9 +227,34 @@ func c30Run(in string) string {
 		out = append(out, c30ErrClass(r.err)+"|"+msgs+"|"+c30Snapshot(ps, n))
 	}
 	if len(out) == 0 {
-		return "-"
+		return "-", stalled, false
 	}
-	return strings.Join(out, " ")
+	return strings.Join(out, " "), stalled, false
+}
+
+// c30Run repeats a sequence whose execution was stalled by the machine (the elapsed-seconds
+// arithmetic of updateTime reads the wall clock), so that the result only depends on the input.
+// A hang is reported only when the sequence hangs three times in a row: a deadlock does, a
+// frozen machine does not.
+func c30Run(in string) string {
+	var out string
+	hangs := 0
+	for attempt := 0; attempt < 6; attempt++ {
+		var stalled, hung bool
+		out, stalled, hung = c30RunOnce(in)
+		if hung {
+			hangs++
+			if hangs >= 3 {
+				c30Hangs++
+				return out
+			}
+			continue
+		}
+		if !stalled {
+			break
+		}
+	}
+	return out
 }
 
 // ---------------------------------------------------------------- generator
